@@ -1,0 +1,15 @@
+//go:build verif
+// +build verif
+
+// Contracts for the deductive verifier in /verif (govc). Comment-only: no executable code.
+package syncqueue
+
+// (C10) The upstream-cluster controller's check-then-register sequence on the name registry is written for ONE worker (the
+// queue serialises only identical keys): whoever starts this queue for it must ask for exactly one.
+//@ func (*SyncQueue).Run props C10
+//@   trusted "starts the given number of worker goroutines on the queue"
+//@   requires [single_worker] workers == 1 onlyfor C10
+//@   modifies nothing
+//@ func (*SyncQueue).ShutDown props C10
+//@   trusted "shuts the work queue down"
+//@   modifies nothing
